@@ -22,6 +22,8 @@
   exclude them (`Progressive`), theorem 7 states what happens instead, theorem 6 shows it is safe.
 -/
 import KmipModel.Lemmas.StreamLemmas
+import KmipModel.Lemmas.StreamWireLemmas
+import KmipModel.Lemmas.FixpointLemmas
 namespace Kmip.C07
 open Kmip
 
@@ -235,6 +237,62 @@ theorem recv_truncated (max : Nat) (m : Bytes) (k : Nat) (sched : List ReadEv)
   have h' : (recvC 512 max { wire := m.take k, sched := sched }).res = .msg bs := h
   rcases recvC_truncated 512 max m k sched hm hk with e | e | e <;> · rw [e] at h'; cases h'
 
+/-! ### 8. the sender side, and the stream composed with the codec
+
+`Stream.Send(msg)` is `MarshalTTLV(msg)` followed by ONE `Write` of those bytes; the encoder model `enc`
+(C01/C03: `ttlvWriter`, byte for byte) therefore gives what a sequence of `Send` calls puts on the wire:
+`encList ts = (ts.map enc).flatten`. The theorems 1-7 take "`m` is one frame" (`Framed m`) as a
+hypothesis; 8a discharges it for everything the encoder can write, 8b/8c state the property end to end:
+"every sequence of messages WRITTEN to a TTLV stream ... the receiver returns exactly the sent messages". -/
+
+/-- 8a. Every in-range item is written as exactly one frame of the receiver (header complete, total
+    length equal to what `computeNeededBytes` announces). -/
+theorem send_is_one_frame (t : Item) (h : t.InRange) : Framed (enc t) :=
+  enc_framed t h
+
+/-- 8b. Any sequence of in-range items sent over a stream, any progressive schedule in which only a
+    read that completes a frame may carry an error, any trailing bytes: the receiver returns exactly
+    the encodings of the items, in order, leaves exactly `rest`, and every returned frame decodes (model
+    of `UnmarshalTTLV` into a `ttlv.Value`) to the item that was sent. -/
+theorem stream_transports_items_data_with_err (c0 max : Nat) (ts : List Item) (rest : Bytes)
+    (sched : List ReadEv)
+    (hts : ∀ t ∈ ts, t.InRange ∧ (max = 0 ∨ (enc t).length ≤ max)) (hp : Progressive sched)
+    (he : SeqSched ((ts.map enc).map List.length) sched) :
+    ∃ sched', recvAll c0 max ts.length { wire := encList ts ++ rest, sched := sched }
+        = (ts.map enc, none, { wire := rest, sched := sched' }) ∧ Progressive sched' ∧
+      (ts.map enc).map unmarshalValue = ts.map Res.ok := by
+  have hms : ∀ m ∈ ts.map enc, Framed m ∧ (max = 0 ∨ m.length ≤ max) := by
+    intro m hm
+    rcases List.mem_map.1 hm with ⟨t, ht, rfl⟩
+    exact ⟨enc_framed t (hts t ht).1, (hts t ht).2⟩
+  obtain ⟨sched', h1, h2⟩ := recvAll_exact_data_with_err c0 max (ts.map enc) rest sched hms hp he
+  rw [List.length_map, ← encList_eq_flatten] at h1
+  refine ⟨sched', h1, h2, ?_⟩
+  rw [List.map_map]
+  apply List.map_congr_left
+  intro t ht
+  have hs := size_le_length_aux t
+  have hp' := specParse_enc_aux t (hts t ht).1 ((enc t).length + 1) (by omega) []
+  rw [List.append_nil] at hp'
+  exact unmarshalValue_of_specDecode _ _ (by simp [specDecode, hp'])
+
+/-- 8c. In particular for every progressive error-free schedule (every way of splitting or coalescing
+    the bytes into reads of at least one byte). -/
+theorem stream_transports_items (c0 max : Nat) (ts : List Item) (rest : Bytes) (sched : List ReadEv)
+    (hts : ∀ t ∈ ts, t.InRange ∧ (max = 0 ∨ (enc t).length ≤ max)) (hp : Progressive sched)
+    (he : ∀ ev ∈ sched, ev.withErr = false) :
+    ∃ sched', recvAll c0 max ts.length { wire := encList ts ++ rest, sched := sched }
+        = (ts.map enc, none, { wire := rest, sched := sched' }) ∧ Progressive sched' ∧
+      (ts.map enc).map unmarshalValue = ts.map Res.ok :=
+  stream_transports_items_data_with_err c0 max ts rest sched hts hp (SeqSched_of_errFree _ _ he)
+
+/-- 8d. A stream cut inside the LAST of the sent items (at any byte `k` of its encoding) never yields
+    that item: the receiver reports an error for it, whatever the schedule. -/
+theorem stream_cut_inside_item (max : Nat) (t : Item) (h : t.InRange) (k : Nat) (sched : List ReadEv)
+    (hk : k < (enc t).length) :
+    ∀ bs, (recv max { wire := (enc t).take k, sched := sched }).res ≠ .msg bs :=
+  recv_truncated max (enc t) k sched (enc_framed t h) hk
+
 /-! ### non-vacuity -/
 
 /-- the 16 bytes of an Integer item (tag 0x42000A, value 1). -/
@@ -307,5 +365,15 @@ example : (recvC 512 1048576 { wire := hugeHdr ++ [1, 2, 3], sched := [⟨3, fal
 
 /-- growth: a 16-byte frame with an initial capacity of 8 requests capacity 16. -/
 example : (recvC 8 0 { wire := intFrame, sched := [] }).cap = 16 := by decide
+
+/-- 8b/8c are not vacuous: an Integer and a Text String item (3 bytes, so padded) meet the hypotheses
+    without a limit, and the second one is really sent in 16 bytes. -/
+example : ∀ t ∈ [Item.int 0x42000A 1, Item.text 0x420003 [0x61, 0x62, 0x63]],
+    t.InRange ∧ ((0 : Nat) = 0 ∨ (enc t).length ≤ 0) := by
+  intro t ht
+  simp only [List.mem_cons, List.mem_nil_iff, or_false] at ht
+  rcases ht with rfl | rfl <;> refine ⟨?_, Or.inl rfl⟩ <;> simp [Item.InRange, inInt]
+
+example : (enc (Item.text 0x420003 [0x61, 0x62, 0x63])).length = 16 := by decide
 
 end Kmip.C07
